@@ -335,6 +335,26 @@ def run_num(case):
         evals += 1
         if isinstance(have, str) or abs(have - el_want) > 1e-9 * max(1.0, abs(el_want)):
             fails.append(_fail("expected_length == sum_x |x| w(x) (weights > 1)", inp0, have, el_want))
+    if n and no_recursion(rules, V):
+        # tiny dyadic weights (totals ~1e-20) with a caller-chosen tolerance of 0: the tolerance is absolute,
+        # so the default 1e-12 would legitimately discard them - tol=0 must not
+        TINY = [2.0**-34, 2.0**-33, 2.0**-35, 2.0**-34, 2.0**-36, 2.0**-33]
+        tw = [TINY[i % 6] for i in range(n)]
+        wantt = ref_totals([(w, h, b) for w, (h, b) in zip(tw, rules)], V, Float, tol=0, maxit=100)
+        gt = gram.build(rules, Float, tw, V=V)
+        for name, f in (("agenda", lambda: gt.agenda(tol=0)), ("naive_bottom_up", lambda: gt.naive_bottom_up(tol=0))):
+            have = _call(f)
+            evals += 1
+            if isinstance(have, str) or any(abs(have[X] - wantt.get(X, 0.0)) > 1e-9 * abs(wantt.get(X, 0.0)) for X in NT):
+                fails.append(_fail(f"float {name}(tol=0) == least solution (tiny weights)", inp0, have, wantt))
+        # weights among which some nonterminals are EXACTLY normalised (total weight 1.0): expected length
+        ONEW = [1.0, 0.5, 0.5, 1.0, 0.25, 0.75]
+        ow = [ONEW[i % 6] for i in range(n)]
+        el_want = ref_totals([(ExpRef(w, w * sum(1 for y in b if y in V)), h, b) for w, (h, b) in zip(ow, rules)], V, ExpRef, tol=0, maxit=100).get("S", ExpRef.zero).r
+        have = _call(lambda: gram.build(rules, Float, ow, V=V).expected_length)
+        evals += 1
+        if isinstance(have, str) or abs(have - el_want) > 1e-9 * max(1.0, abs(el_want)):
+            fails.append(_fail("expected_length == sum_x |x| w(x) (weights 1, 1/2, 1/4, 3/4)", inp0, have, el_want))
     # Log semiring with very small probabilities (log-weights around -20 .. -30)
     from genlm.grammar.semiring import Log
 
